@@ -6,6 +6,7 @@ from vlib import *
 import pyed
 
 
+THOROUGH_ROUNDS = 1      # repetitions of the conformance part in the thorough tier (fresh random draws each)
 def digit_scalars(rng, quick):
     s = [0, 1, 2**255 - 1, 2**255 - 2, 2**254, 2**252, L - 1, L, L + 1, 2 * L, 8 * L - 1 if 8 * L - 1 < 2**255 else 0]
     s.append(int("78" + "88" * 31, 16))        # every nibble 8 -> digits -8 with a carry chain into the top nibble 7
